@@ -206,6 +206,7 @@ class Program:
         # names imported from sibling modules: an extracted helper that another module imports must
         # survive in its home module even when all of its local uses were inlined
         self.imported_names: Set[str] = set()
+        self.req_sigs: Dict[str, list] = {}
         for dirpath, _dirs, files in os.walk(pkgdir):
             for fn in sorted(files):
                 if fn.endswith(".py"):
@@ -217,6 +218,9 @@ class Program:
                     for x in ast.walk(t0):
                         if isinstance(x, ast.ImportFrom):
                             self.imported_names.update(a.name for a in x.names)
+                    from .normalize import collect_required_signatures
+
+                    collect_required_signatures(t0, self.req_sigs)
         for dirpath, _dirs, files in os.walk(pkgdir):
             for fn in sorted(files):
                 if not fn.endswith(".py"):
@@ -256,6 +260,9 @@ class Program:
             from .inline import inline_unknown_helpers, load_baseline
             from .normalize import desugar, forward_substitute_temps as _fst
 
+            from .normalize import canonicalise_required_kwargs
+
+            n_kw = canonicalise_required_kwargs(tree, getattr(self, "req_sigs", {}))
             n_ds = desugar(tree)
             from .normalize import expand_dispatch
 
@@ -274,6 +281,8 @@ class Program:
                 inlined, renamed = [], {}
             from .normalize import forward_substitute_temps, scalarise_records
 
+            if n_kw:
+                inlined = inlined + [f"{n_kw} keyword argument(s) for required parameters put in positional form"]
             if n_ds:
                 inlined = inlined + [f"desugared {n_ds} walrus / suppress() construct(s)"]
 
